@@ -912,11 +912,12 @@ package core
 // Ghost event: nodeloads[n] counts Node.loadMetadata calls on n.  A successful reset (full
 // or partial) ends by reloading the node's metadata, so that the node's cached state is the
 // state after the reset (a node that was failed before is not still seen as failed).
+// (the call is the event; what is verified of the body: the node's cached state is the state
+// computed from the metadata just reloaded)
 //@ func core.Node.loadMetadata property C05
-//@   trusted
-//@   modifies ghost(nodeloads)
-//@   ensures ghost(nodeloads)[self] == old(ghost(nodeloads)[self]) + 1
-//@   ensures forall n *core.Node :: n != self ==> ghost(nodeloads)[n] >= old(ghost(nodeloads)[n])
+//@   effect nodeloads self
+//@   requires self != nil
+//@   ensures @stateloaded self.state == fn(core.Node.getState, self)
 
 //@ func core.Node.reset property C05
 //@   requires self != nil && self.top != nil && self.top.rt != nil && self.top.rt.Config != nil
@@ -1065,3 +1066,44 @@ package core
 //@   loop 2 invariant forall p *core.ForkSourcePart :: old(alloc(p)) ==> p.Id == old(p.Id)
 //@   loop 3 invariant forall p *core.ForkSourcePart :: old(alloc(p)) ==> p.Id == old(p.Id)
 //@   loop 4 invariant forall p *core.ForkSourcePart :: old(alloc(p)) ==> p.Id == old(p.Id)
+
+// ---------------------------------------------------------------- C05 a (re)loaded pipestance has directories for every running node
+// Ghost event: nodemkdirs[n] counts Node.mkdirs calls on n.  Loading the metadata (first start
+// or restart) creates the directories of EVERY node found running, unless the pipestance is
+// read-only: chunk objects rebuilt from an existing split record may have no directory yet.
+//@ func core.Node.mkdirs property C05
+//@   trusted
+//@   effect nodemkdirs self
+//@ func core.Pipestance.readOnly property C05
+//@   trusted
+//@   pure
+//@   opt deterministic on
+//@ func core.Pipestance.LoadMetadata property C05
+//@   requires self != nil
+//@   let AN = fn(core.Pipestance.allNodes, self)
+//@   requires forall j :: 0 <= j && j < len(AN) ==> AN[j] != nil
+//@   ensures @dirs !fn(core.Pipestance.readOnly, self) ==> forall j :: 0 <= j && j < len(AN) && AN[j].state == "running" ==> ghost(nodemkdirs)[AN[j]] > old(ghost(nodemkdirs)[AN[j]])
+//@   loop 1 invariant ghost(nodemkdirs) == old(ghost(nodemkdirs))
+//@   loop 2 invariant 0 <= iter && iter <= len(AN) && forall n *core.Node :: ghost(nodemkdirs)[n] >= old(ghost(nodemkdirs)[n])
+//@   loop 2 invariant !fn(core.Pipestance.readOnly, self) ==> forall j :: 0 <= j && j < iter && AN[j].state == "running" ==> ghost(nodemkdirs)[AN[j]] > old(ghost(nodemkdirs)[AN[j]])
+
+// ---------------------------------------------------------------- C12 a restarted mrp re-registers every submitted job with the job limit
+// Ghost event: reattached[m] counts Metadata.reattachJob calls on m.  Fork.reattachJobs offers
+// EVERY job of the fork (split, join and each chunk) to the job manager - whatever the
+// answers for the others were - so that the fresh max-jobs semaphore counts all of them.
+//@ func core.Metadata.reattachJob property C12
+//@   trusted
+//@   effect reattached metadata
+//@ func core.Fork.restartLocallyQueuedJobs property C12
+//@   trusted
+//@   ensures forall m *core.Metadata :: ghost(reattached)[m] >= old(ghost(reattached)[m])
+//@ func core.Fork.reattachJobs property C12
+//@   requires self != nil && self.node != nil && self.node.top != nil && self.node.top.rt != nil && self.split_metadata != nil && self.join_metadata != nil
+//@   requires forall j :: 0 <= j && j < len(self.chunks) ==> self.chunks[j] != nil && self.chunks[j].metadata != nil
+//@   ensures @split ghost(reattached)[old(self.split_metadata)] > old(ghost(reattached)[self.split_metadata])
+//@   ensures @join ghost(reattached)[old(self.join_metadata)] > old(ghost(reattached)[self.join_metadata])
+//@   ensures @chunks forall j :: 0 <= j && j < old(len(self.chunks)) ==> ghost(reattached)[old(self.chunks[j].metadata)] > old(ghost(reattached)[self.chunks[j].metadata])
+//@   loop 1 invariant 0 <= iter && iter <= len(self.chunks) && forall m *core.Metadata :: ghost(reattached)[m] >= old(ghost(reattached)[m])
+//@   loop 1 invariant ghost(reattached)[self.split_metadata] > old(ghost(reattached)[self.split_metadata]) && ghost(reattached)[self.join_metadata] > old(ghost(reattached)[self.join_metadata])
+//@   loop 1 invariant forall j :: 0 <= j && j < iter ==> ghost(reattached)[self.chunks[j].metadata] > old(ghost(reattached)[self.chunks[j].metadata])
+//@   loop 1 invariant self.split_metadata == old(self.split_metadata) && self.join_metadata == old(self.join_metadata) && forall j :: 0 <= j && j < len(self.chunks) ==> self.chunks[j] == old(self.chunks[j]) && self.chunks[j].metadata == old(self.chunks[j].metadata)
